@@ -48,7 +48,9 @@ Record range := mkR { rb : nat; ro : N; rn : N }.   (* n bytes of buffer rb star
 (* reasons (an enumeration rather than Coq strings, which do not extract under ExtrOcamlBasic):
    [UB oob] is the UB oob of DESIGN 3.1, [UB signed_overflow] is UB signed_overflow, ... *)
 Inductive ubkind := oob | null_deref | signed_overflow | bad_free | oob_write.
-Inductive assertion := a_sub_string.   (* FRG_ASSERT in basic_string_view::sub_string *)
+Inductive assertion :=
+| a_sub_string        (* FRG_ASSERT in basic_string_view::sub_string *)
+| a_option_apply.     (* FRG_ASSERT(fn.ptr) in frg::option::apply (cmdline.hpp) *)
 Inductive outcome (A : Type) :=
 | Ok (a : A) | AssertStop (w : assertion) | UB (w : ubkind) | OutOfFuel.
 Arguments Ok {A} a. Arguments AssertStop {A} w. Arguments UB {A} w. Arguments OutOfFuel {A}.
